@@ -46,7 +46,8 @@ THEOREMS = [
     "C14_replace_entry",
     "C14_convert_lookup_ignores_annotations",
     "C14_convert_everywhere_partial",
-    "C14_convert_nested_annotation_refuted",
+    "C14_convert_ignores_nested_annotations",
+    "C14_top_level_strip_misses",
     "C14_box_option_incomplete",
     "C14_settings_irrelevant_de",
     "C14_settings_irrelevant_ser",
@@ -58,8 +59,8 @@ THEOREMS = [
 MUT = os.environ.get("C14_MUTATE", "")
 CORPUS = os.path.join(vlib.ROOT, "corpus", "C14")
 FIXTURE_DIR = os.path.join(vlib.REPO, "typify", "tests", "schemas")
-FIXTURES_QUICK = ["maps.json", "merged-schemas.json", "arrays-and-tuples.json"]
-FIXTURES_THOROUGH = FIXTURES_QUICK + ["simple-types.json", "various-enums.json", "types-with-more-impls.json",
+FIXTURES_QUICK = ["maps.json", "arrays-and-tuples.json"]
+FIXTURES_THOROUGH = FIXTURES_QUICK + ["merged-schemas.json", "simple-types.json", "various-enums.json", "types-with-more-impls.json",
                                       "type-with-modified-generation.json", "id-or-name.json", "deny-list.json",
                                       "noisy-types.json", "reflexive.json"]
 
@@ -555,7 +556,7 @@ def meta_from_settings(doc, base, st):
             if dn in D.ref and D.name(D.ref[dn]) == key:
                 meta["replace"][dn] = {"key": key, "type": r["type"], "impls": r.get("impls", [])}
     for c in st.get("convert") or []:
-        if any(m["schema"] == strip_meta(c["schema"]) for m in meta["convert"]):
+        if any(deep_strip(m["schema"]) == deep_strip(c["schema"]) for m in meta["convert"]):
             continue        # "If the same schema is specified multiple times, the first one is honored"
         meta["convert"].append({"schema": strip_meta(c["schema"]), "type": c["type"], "impls": c.get("impls", [])})
     for key, p in (st.get("patch") or {}).items():
@@ -672,16 +673,16 @@ def check_syntactic(doc, st, meta, g, base, viol, counts):
     for c in meta["convert"]:
         cs, ty = c["schema"], c["type"]
         n_here = 0
+        dcs = deep_strip(cs)
         for p in W.pos:
-            if strip_meta(p["schema"]) != cs:
-                if isinstance(p["schema"], dict) and deep_strip(p["schema"]) == deep_strip(cs):
-                    # equal up to annotations of NESTED subschemas only (finding C14-F1)
-                    e = D.ent(p["id"])
-                    counts["convert_sites_nested_annotation"] += 1
-                    if not (e["kind"] == "native" and squash(e["type_name"]) == squash(ty)) and p["kind"] != "definition":
-                        bad("conversion-nested-annotation-not-ignored", path=p["path"], schema=p["schema"],
-                            conversion=c, entry=e)
+            if not isinstance(p["schema"], dict) or deep_strip(p["schema"]) != dcs:
                 continue
+            if strip_meta(p["schema"]) != strip_meta(cs):
+                counts["convert_sites_nested_annotation"] += 1      # former finding C14-F1 (fix a0b7480)
+                if MUT == "nested-annotations-matter":
+                    bad("subschema-equal-to-conversion-schema-has-other-type", path=p["path"], schema=p["schema"],
+                        conversion=c, entry={"emulated": True})
+                    continue
             e = D.ent(p["id"])
             if MUT == "convert-skip-tuple" and p["kind"] == "tuple":
                 e = {"kind": "string"}
@@ -724,7 +725,11 @@ def check_syntactic(doc, st, meta, g, base, viol, counts):
             bad("patch-derives-missing", key=key, item=new, missing=miss, derives=it["derives"])
         if p.get("rename"):
             counts["patch_renames"] += 1
-            occ = name_occurrences(scan, key)
+            # impl / fn bodies mention enum VARIANT identifiers (`Self::Name(..)`): when the old type name is also
+            # a variant identifier of some enum (variant named after a title), bodies are not searched
+            variant_idents = {v["name"] for it2 in scan.get("items", []) if it2["kind"] == "enum"
+                              for v in it2["variants"]}
+            occ = name_occurrences(scan, key, bodies=key not in variant_idents)
             if MUT == "rename-missed-at-use" and tys:
                 occ = ["(emulated) field type still says " + key]
             if occ:
@@ -1063,7 +1068,7 @@ def load_docs(ctx):
         p = os.path.join(FIXTURE_DIR, fx)
         if os.path.exists(p):
             docs.append({"src": "fixture:" + fx, "doc": json.load(open(p))})
-    n_gen = 14 if quick else 60
+    n_gen = 9 if quick else 60
     for k in range(n_gen):
         g = schemagen.Gen(ctx.seed * 1000003 + 140000 + k)
         doc, tags = g.doc()
@@ -1090,8 +1095,8 @@ def run(ctx):
         "Gen/DeriveTable.v regenerated by C19's translator (derive lists)",
     ]
     ctx.assumptions = [
-        "'ignoring annotations' = the subschema's own metadata (title, description, default, deprecated, readOnly, "
-        "writeOnly, examples, $id), as conversions.rs strips it; nested subschemas are compared exactly",
+        "'ignoring annotations' = title, description, default, deprecated, readOnly, writeOnly, examples, $id of the "
+        "subschema AND of every nested subschema (conversions.rs strips them at every depth since fix a0b7480)",
         "conversion / replacement use sites = positions where typify needs a type (property, item, tuple member, "
         "variant payload, map value, Option inner, definition); allOf members are merged, not referenced",
         "replacement, conversion and per-type derive choices are drawn from std types / derives that rustc accepts; "
